@@ -23,7 +23,9 @@ Paths == [
     P6 |-> <<[t |-> 2, asns |-> <<A(0, 65001), A(0, 23456), A(0, 65002)>>], [t |-> 1, asns |-> <<A(0, 23456), A(0, 65010), A(0, 65011)>>]>>,
     \* the same ten bytes (02 02 fc00 fc01 02 01 fde8): two sequences of 2-byte AS numbers, or one sequence of two 4-byte ones
     P7 |-> <<[t |-> 2, asns |-> <<A(0, 64512), A(0, 64513)>>], [t |-> 2, asns |-> <<A(0, 65000)>>]>>,
-    P8 |-> <<[t |-> 2, asns |-> <<A(64512, 64513), A(513, 65000)>>]>> ]
+    P8 |-> <<[t |-> 2, asns |-> <<A(64512, 64513), A(513, 65000)>>]>>,
+    \* through a confederation and a 2-byte speaker: AS_CONFED_SEQUENCE ( 64600 64601 ), then 65001 AS_TRANS 65002 (goes with Q5)
+    P9 |-> <<[t |-> 3, asns |-> <<A(0, 64600), A(0, 64601)>>], [t |-> 2, asns |-> <<A(0, 65001), A(0, 23456), A(0, 65002)>>]>> ]
 \* AS4_PATH companions (only meaningful on 2-byte sessions)
 As4Paths == [
     none |-> <<>>,
@@ -31,7 +33,9 @@ As4Paths == [
     Q2 |-> <<[t |-> 2, asns |-> <<A(0, 65001), A(64086, 59905), A(1, 0)>>]>>,      \* same length: replaces
     Q3 |-> <<[t |-> 2, asns |-> <<A(0, 1), A(0, 2), A(0, 3), A(0, 4), A(0, 5)>>]>>,  \* longer than AS_PATH: ignored
     \* sequence of two and set of three (different counts): 4200000001 65002 { 65536 65010 65011 }
-    Q4 |-> <<[t |-> 2, asns |-> <<A(64086, 59905), A(0, 65002)>>], [t |-> 1, asns |-> <<A(1, 0), A(0, 65010), A(0, 65011)>>]>> ]
+    Q4 |-> <<[t |-> 2, asns |-> <<A(64086, 59905), A(0, 65002)>>], [t |-> 1, asns |-> <<A(1, 0), A(0, 65010), A(0, 65011)>>]>>,
+    \* two AS numbers against the three P9 counts (its confederation segment counts for none): 65001 is kept, behind the confederation segment
+    Q5 |-> <<[t |-> 2, asns |-> <<A(64086, 59905), A(0, 65002)>>]>> ]
 
 B4(a, b, c, d) == <<a, b, c, d>>
 Meds == [none |-> <<>>, zero |-> B4(0, 0, 0, 0), ten |-> B4(0, 0, 0, 10), max |-> B4(255, 255, 255, 255)]
@@ -55,8 +59,8 @@ Dom == [
     extnh |-> BOOLEAN,               \* RFC 8950 extended next hop negotiated for ipv4 unicast
     mpr4 |-> BOOLEAN,                \* the MP_REACH_NLRI carries IPv4 prefixes with an IPv6 next hop (needs extnh)
     origin |-> {0, 1, 2},
-    path |-> {"P0", "P1", "P2", "P3", "P4", "P5", "P6", "P7", "P8"},
-    as4 |-> {"none", "Q1", "Q2", "Q3", "Q4"},
+    path |-> {"P0", "P1", "P2", "P3", "P4", "P5", "P6", "P7", "P8", "P9"},
+    as4 |-> {"none", "Q1", "Q2", "Q3", "Q4", "Q5"},
     med |-> {"none", "zero", "ten", "max"},
     pref |-> {"none", "hundred", "big"},
     atomic |-> BOOLEAN,
@@ -82,6 +86,7 @@ Base == [asn4 |-> TRUE, addpath |-> TRUE, ibgp |-> FALSE, extnh |-> FALSE, mpr4 
 Bases == { Base,
            [Base EXCEPT !.extnh = TRUE, !.mpr = "one", !.mpr4 = TRUE],                          \* RFC 8950
            [Base EXCEPT !.asn4 = FALSE, !.path = "P5", !.as4 = "Q1"],                            \* 2-byte peer with AS4_PATH
+           [Base EXCEPT !.asn4 = FALSE, !.path = "P9", !.as4 = "Q5"],                            \* ... behind a confederation segment
            [Base EXCEPT !.asn4 = FALSE, !.path = "P6", !.as4 = "Q4"],                            \* ... of an aggregate (AS_SET)
            [Base EXCEPT !.nlri = "none", !.mpr = "two", !.mprLL = TRUE, !.addpath = FALSE],      \* IPv6 only, two next hops
            [Base EXCEPT !.nlri = "none", !.wd = "one", !.mpu = "one"],                           \* withdraw-only
@@ -91,8 +96,8 @@ Fields == DOMAIN Base
 \* rows that are not well-formed UPDATEs for their session
 WellFormed(u) ==
     /\ (u.as4 # "none" => ~u.asn4)                                \* AS4_PATH only travels on 2-byte sessions
-    /\ (u.asn4 \/ u.path \in {"P0", "P1", "P2", "P5", "P6", "P7"})             \* a 2-byte AS_PATH cannot carry 4-byte numbers
-    /\ (u.path \in {"P5", "P6", "P7"} => ~u.asn4)
+    /\ (u.asn4 \/ u.path \in {"P0", "P1", "P2", "P5", "P6", "P7", "P9"})             \* a 2-byte AS_PATH cannot carry 4-byte numbers
+    /\ (u.path \in {"P5", "P6", "P7", "P9"} => ~u.asn4)
     /\ (u.mprLL => u.mpr # "none")
     /\ (u.mpr4 => u.extnh /\ u.mpr # "none")
     /\ ~(u.mpu = "eor" /\ (u.nlri # "none" \/ u.wd # "none" \/ u.mpr # "none"))
